@@ -1691,8 +1691,9 @@ func (p *wat2cWorker) buildFunc_ins(w io.Writer, fn *ast.Func, stk *valueTypeSta
 		sp0 := stk.Pop(token.I32)
 		sp1 := stk.Pop(token.I32)
 		ret0 := stk.Push(token.I32)
-		fmt.Fprintf(w, "%sR%d.i32 = R%d.i32 %% R%d.i32; // %s\n",
-			indent, ret0, sp1, sp0,
+		// INT_MIN % -1 is 0 in WebAssembly; in C it is undefined (x86 idiv faults)
+		fmt.Fprintf(w, "%sR%d.i32 = R%d.i32 %% ((R%d.i32 == -1)? 1: R%d.i32); // %s\n",
+			indent, ret0, sp1, sp0, sp0,
 			insString(i),
 		)
 	case token.INS_I32_REM_U:
@@ -1832,8 +1833,9 @@ func (p *wat2cWorker) buildFunc_ins(w io.Writer, fn *ast.Func, stk *valueTypeSta
 		sp0 := stk.Pop(token.I64)
 		sp1 := stk.Pop(token.I64)
 		ret0 := stk.Push(token.I64)
-		fmt.Fprintf(w, "%sR%d.i64 = (int64_t)((int64_t)(R%d.i64)%%(int64_t)(R%d.i64)); // %s\n",
-			indent, ret0, sp1, sp0,
+		// INT64_MIN % -1 is 0 in WebAssembly; in C it is undefined (x86 idiv faults)
+		fmt.Fprintf(w, "%sR%d.i64 = (int64_t)((int64_t)(R%d.i64)%%((R%d.i64 == -1)? 1: (int64_t)(R%d.i64))); // %s\n",
+			indent, ret0, sp1, sp0, sp0,
 			insString(i),
 		)
 	case token.INS_I64_REM_U:
